@@ -15,8 +15,6 @@ use crate::probe::*;
 use mc_core::{bfs, BfsStats, Ctx, Level, Machine};
 use mc_ledger::*;
 use radix_engine::system::system_substates::FieldSubstate;
-use radix_engine_interface::object_modules::metadata::*;
-use radix_engine_interface::object_modules::role_assignment::*;
 use radix_substate_store_interface::interface::SubstateDatabaseExtensions;
 use serde_json::json;
 use std::collections::BTreeMap;
@@ -578,14 +576,16 @@ pub fn run(ctx: Ctx) -> ! {
         replay(ctx, &w);
     }
     // (depth of the per-kind groups, depth of the mixed group, wall cap per group)
-    let (d_kind, d_mixed, cap) = ctx.pick((4usize, 3usize, 40.0), (8, 5, 600.0));
+    // total wall budget shared by the groups (a group that runs out of budget reports its deepest completed layer)
+    let (d_kind, d_mixed, budget) = ctx.pick((4usize, 3usize, 50.0), (12, 12, 1100.0));
     let mut total = BfsStats::default();
     let mut per_group = vec![];
     for gi in 0..w.groups.len() {
         let m = M51 { w: &w, group: gi };
         let depth = if w.groups[gi].0.starts_with("mixed") { d_mixed } else { d_kind };
+        let cap = (budget - ctx.elapsed_s()).max(5.0);
         let s = bfs(&ctx, &m, &w.groups[gi].0, depth, 2_000_000, cap);
-        per_group.push(json!({"group": w.groups[gi].0, "items": w.groups[gi].1.iter().map(|i| w.items[*i].name.clone()).collect::<Vec<_>>(), "actions": w.groups[gi].2.len(), "depth": depth, "states": s.states, "transitions": s.transitions, "fixpoint": s.depth_completed == depth && s.per_depth_states.last() == Some(&0), "capped": s.capped}));
+        per_group.push(json!({"group": w.groups[gi].0, "items": w.groups[gi].1.iter().map(|i| w.items[*i].name.clone()).collect::<Vec<_>>(), "actions": w.groups[gi].2.len(), "depth": depth, "depth_completed": s.depth_completed, "states": s.states, "transitions": s.transitions, "fixpoint": s.depth_completed == depth && s.per_depth_states.last() == Some(&0), "capped": s.capped}));
         total.add(&s);
     }
     // non-vacuity: locks were accepted and attempts on locked items were seen and rejected
